@@ -333,7 +333,6 @@ Qed.
 
 Theorem compile_correct_f2 F bld M B fuel host o budget :
   in_f2 M = true ->
-  handles_inj (main_names2 (main_cards M)) = true ->
   depth_ok2 (main_cards M) = true ->
   compile M default_options = COk B ->
   N.of_nat (length (Compiler.p_ids B)) < two32 ->
@@ -345,8 +344,8 @@ Theorem compile_correct_f2 F bld M B fuel host o budget :
   forall n, no_collision (main_names2 (main_cards M)) n ->
     option_map vm_tree (read_var_by_name (C15Link.to_vm B) (snd r) n) = RefSem.assoc n (RefSem.ob_globals o).
 Proof.
-  intros HM Hinj Hdepth HB Hlen Hsmall Href Hbud.
-  destruct (compile_f2_shape M B HM HB Hlen) as (rest & Hbc & Hnames & Tinj & Tlt).
+  intros HM Hdepth HB Hlen Hsmall Href Hbud.
+  destruct (compile_f2_shape M B HM HB Hlen) as (rest & Hbc & Hnames & Tinj & Tlt & Hinj).
   destruct (eval_program_f2 fuel M host o HM Href) as (g & Hrun & Hkind & Hgs & Hglob).
   pose proof (in_f2_cards M HM) as Hcards.
   set (T := Compiler.p_ids B) in *. set (cards := main_cards M) in *. set (names := main_names2 cards) in *.
